@@ -208,12 +208,49 @@ func c11(r *mon.Run) {
 		lateDocs = append(lateDocs, map[string]interface{}{"x": xs, "o": o, "y": []interface{}{mk(2), mk(4)}, "k": float64(7)})
 	}
 	LD := len(lateDocs)
-	late := mon.Workload{Name: "errors-in-some-elements", N: len(lateTrees) * LD,
-		Describe: func(i int) string { return gen.Spell(lateTrees[i/LD]) + " on " + ref.Canon(lateDocs[i%LD]) },
+	// the same documents with Go-typed slices ([]map[string]interface{}, [][]map[string]interface{}): the
+	// reflection twins of the projection loops must propagate the same errors
+	typed := func(doc interface{}) interface{} {
+		m := doc.(map[string]interface{})
+		out := map[string]interface{}{"o": m["o"], "k": m["k"]}
+		conv := func(v interface{}) []map[string]interface{} {
+			arr := v.([]interface{})
+			ms := make([]map[string]interface{}, len(arr))
+			for i, e := range arr {
+				ms[i] = e.(map[string]interface{})
+			}
+			return ms
+		}
+		out["x"] = conv(m["x"])
+		ys := m["y"].([]interface{})
+		yy := make([][]map[string]interface{}, len(ys))
+		for i, e := range ys {
+			yy[i] = conv(e)
+		}
+		out["y"] = yy
+		return out
+	}
+	late := mon.Workload{Name: "errors-in-some-elements", N: len(lateTrees) * LD * 2,
+		Describe: func(i int) string { return gen.Spell(lateTrees[(i/2)/LD]) + " on " + ref.Canon(lateDocs[(i/2)%LD]) },
 		Do: func(i int, t *mon.Tally) {
+			asTyped := i%2 == 1
+			i /= 2
 			tree, doc := lateTrees[i/LD], lateDocs[i%LD]
 			expr := gen.Spell(tree)
 			cx := &caseCtx{r, t, "errors-in-some-elements", i}
+			if asTyped {
+				// only error-ness is compared on typed data (value equivalence of typed documents is C18's)
+				res := ref.RefSet(tree, doc, gen.Quirks{})
+				o := apiSearch(expr, typed(mon.DeepCopy(doc)))
+				t.Eval()
+				if o.Panicked {
+					r.Violate(&mon.Violation{Workload: "errors-in-some-elements", Index: i, API: "Search", Expr: expr, Doc: doc, DocDesc: "typed-slice form of " + ref.Canon(doc), Expected: expectedString(res), Observed: o.String(), Class: "typed: panic"})
+				} else if isErr(res) && o.Err == nil {
+					r.Violate(&mon.Violation{Workload: "errors-in-some-elements", Index: i, API: "Search", Expr: expr, Doc: doc, DocDesc: "typed-slice ([]map[string]interface{}) form of " + ref.Canon(doc),
+						Expected: expectedString(res), Observed: o.String(), Class: "typed: error swallowed"})
+				}
+				return
+			}
 			res, _, _ := cx.runBoth(tree, expr, doc)
 			t.NontrivialDistinct(1)
 			if isErr(res) {
